@@ -477,6 +477,43 @@ pub fn derive_tagfn_3() {
     judge(r, &ex, &p);
 }
 
+
+// ---- T16: container-level try_from whose function returns the container's own error type -----------------------------
+pub fn cont_try_rec(l: Leaf) -> Result<Cont9b, Rec> { bump(6); let v = lv(&l); if v % 2 == 1 { Ok(Cont9b(v + 900)) } else { Err(Rec::EMPTY) } }
+#[derive(Deserr)]
+#[deserr(error = Rec, try_from(Leaf) = cont_try_rec -> Rec)]
+pub struct Cont9b(pub u64);
+impl Viewed for Cont9b { fn slots(&self) -> [u64; MAXF] { [self.0, 0, 0, 0, 0, 0] } }
+pub fn derive_cont9b() {
+    reset_all(&D_CONV8);
+    let n = any_val();
+    let o = ValuePointerRef::Origin; let l = o.push_index(1);
+    let p = Path::ROOT.idx(1);
+    let r = <Cont9b as Deserr<Rec>>::deserialize_from_value::<KV>(to_value(n), l);
+    let mut ex = Expect::EMPTY;
+    match n {
+        // the function's error (an error value without recorded calls) is handed to the error type at the container's location
+        Node::Int(x) => { ex.counters[6] = 1; let v = leaf_view(x); if v % 2 == 1 { ex.view[0] = v + 900; } else { ex.log.push(handover(p)); } }
+        _ => { ex.log.push(report(K_UNEXPECTED, p, 0, 0)); }
+    }
+    if let (Err(e), Node::Int(x)) = (&r, n) { if leaf_view(x) % 2 == 0 { oblige!(e.n == 1 && e.ev[0].kind() == K_HANDOVER && e.ev[0].path() == p, "C04,C11:container_conversion_failure_is_handed_over_once_at_the_container_location"); } }
+    judge(r, &ex, &p);
+}
+
+
+// ---- T17: rename_all = camelCase on identifiers that are not plain snake_case (already camelCase, mixed) ---------------
+#[derive(Deserr)]
+#[deserr(rename_all = camelCase, deny_unknown_fields)]
+pub struct Camel2 { pub abC_d: Leaf, pub pqRs: Option<Leaf> }
+impl Viewed for Camel2 { fn slots(&self) -> [u64; MAXF] { [lv(&self.abC_d), ov(&self.pqRs), 0, 0, 0, 0] } }
+// by the statement: abC_d -> abCD (words ab | C | d), pqRs -> pqRs (already camelCase); near-misses: all-lowercase forms, the identifier
+pub static D_CAMEL2: [&str; 5] = ["abCD", "pqRs", "abcD", "pqrs", "abC_d"];
+pub static S_CAMEL2: StructDesc = StructDesc { fields: &[
+    FieldDesc { key: 0, presence: Presence::Required, ty: FTy::Leaf, missing_fn: false, conv: Conv::None, map: None },
+    FieldDesc { key: 1, presence: Presence::Required, ty: FTy::OptLeaf, missing_fn: false, conv: Conv::None, map: None },
+], deny: Deny::Default, validate: None };
+pub fn derive_camel2_2() { run_struct::<Camel2>(&S_CAMEL2, &D_CAMEL2, 2) }
+
 // ---- C15: member order never changes the outcome (relational: same members, both orders, keep-going) -----------
 pub fn same_multiset(a: &Rec, b: &Rec) -> bool {
     if a.n != b.n { return false; }
@@ -539,7 +576,7 @@ pub fn registry() -> Vec<(&'static str, crate::Body)> {
          ("derive_fns5_2", derive_fns5_2), ("derive_conv8_2", derive_conv8_2), ("derive_conv8_3", derive_conv8_3), ("derive_cont9", derive_cont9),
          ("derive_tagged_first", derive_tagged_first), ("derive_tagged_last", derive_tagged_last), ("derive_tagged_absent", derive_tagged_absent), ("derive_tagged_not_a_map", derive_tagged_not_a_map),
          ("derive_units", derive_units), ("derive_nest", derive_nest), ("derive_deffirst_2", derive_deffirst_2), ("derive_deffirst_3", derive_deffirst_3), ("derive_ferr10_2", derive_ferr10_2),
-         ("derive_refs13_2", derive_refs13_2), ("derive_refs13_3", derive_refs13_3), ("derive_cfrom14", derive_cfrom14), ("derive_tagfn_3", derive_tagfn_3), ("derive_tagdeny_first", derive_tagdeny_first), ("derive_tagdeny_last", derive_tagdeny_last), ("order_camel", order_camel), ("order_tagged", order_tagged), ("order_conv8", order_conv8),
+         ("derive_refs13_2", derive_refs13_2), ("derive_refs13_3", derive_refs13_3), ("derive_cfrom14", derive_cfrom14), ("derive_tagfn_3", derive_tagfn_3), ("derive_camel2_2", derive_camel2_2), ("derive_cont9b", derive_cont9b), ("derive_tagdeny_first", derive_tagdeny_first), ("derive_tagdeny_last", derive_tagdeny_last), ("order_camel", order_camel), ("order_tagged", order_tagged), ("order_conv8", order_conv8),
          ("order_camel_3", order_camel_3), ("order_lower_3", order_lower_3), ("order_deffirst_3", order_deffirst_3), ("order_tagged_3", order_tagged_3), ("order_tagdeny_3", order_tagdeny_3)]
 }
 
@@ -547,7 +584,7 @@ pub fn registry() -> Vec<(&'static str, crate::Body)> {
 mod proofs {
     macro_rules! proof { ($($n:ident),*) => { $( mod $n { #[kani::proof] #[kani::unwind(10)] #[kani::stub(alloc::fmt::format, crate::fake_format)] fn check() { super::super::$n() } } )* } }
     proof!(derive_plain_2, derive_camel_2, derive_lower_2, derive_deny4_2, derive_fns5_2, derive_conv8_2, derive_cont9,
-           derive_units, derive_nest, order_camel, order_conv8, derive_deffirst_2, derive_ferr10_2, derive_refs13_2, derive_cfrom14);
+           derive_units, derive_nest, order_camel, order_conv8, derive_deffirst_2, derive_ferr10_2, derive_refs13_2, derive_cfrom14, derive_cont9b);
     macro_rules! proof14 { ($($n:ident),*) => { $( mod $n { #[kani::proof] #[kani::unwind(14)] #[kani::stub(alloc::fmt::format, crate::fake_format)] fn check() { super::super::$n() } } )* } }
     proof14!(derive_tagged_first, derive_tagged_last, derive_tagged_absent, derive_tagged_not_a_map, order_tagged, derive_tagdeny_first);
     // derive_tagdeny_last (like derive_tagged_last): > 9 GB under CBMC; covered by exhaustive native execution only
